@@ -314,7 +314,12 @@ def specs(tier):
     M = "props.c13"
 
     def add(name, fn, params, max_paths=2000):
-        out.append(dict(module=M, fn=fn, name=name, params=params, max_paths=max_paths, vc_timeouts=(5, 40)))
+        d = dict(module=M, fn=fn, name=name, params=params, max_paths=max_paths, vc_timeouts=(5, 40))
+        if fn == "overlaps" and params.get("index_sets"):
+            # p < alpha forks over the overlap-corrected statistic: z3 5.1's default arithmetic core took between 55 s and 6 min
+            # for the same scenario from run to run (a query outliving its timeout); the older core is steady at ~75 s
+            d["feas_opts"] = {"arith.solver": 2}
+        out.append(d)
 
     add("t/p unweighted base", "tp", dict())
     add("t/p effective base (squared weights)", "tp", dict(squared=True))
